@@ -174,6 +174,7 @@ CHECKS["C18"] = {
     "jobs": [
         {"pkg": SERVER, "run": "^TestVerif_C18_Store$", "checks": {"quick": 1200, "thorough": 120000}, "shards": {"thorough": 16}, "timeout": {"quick": 300}},
         {"pkg": SERVER, "run": "^TestVerif_C18_Concurrent$", "checks": {"quick": 300, "thorough": 20000}, "shards": {"thorough": 8}},
+        {"pkg": SERVER, "run": "^TestVerif_C18_ListWhileGrowing$", "checks": {"quick": 12, "thorough": 400}, "shards": {"thorough": 4}, "timeout": {"quick": 900}},
     ],
 }
 
